@@ -184,6 +184,38 @@ func lifeImpl(line string) string {
 			w = w[l:]
 		}
 		return out + " " + out2 + fmt.Sprintf(" body2=%d", body)
+	case "cancel-mid-send":
+		// the context (which = c: the caller's, n: the connection's) is cancelled while the k-th packet
+		// of a message of n bytes is being written
+		n, k := arg(2), arg(3)
+		which := "c"
+		if len(f) > 4 {
+			which = f[4]
+		}
+		e := newLifeEnv(100)
+		defer e.conn.VerifCancel()
+		ch := e.conn.VerifNewChannel(0)
+		ctx, cancel := context.WithCancel(context.Background())
+		defer cancel()
+		e.mc.onWrite = func(w int) {
+			if w == k {
+				if which == "n" {
+					e.conn.VerifCancel()
+				} else {
+					cancel()
+				}
+			}
+		}
+		pkg := tds.NewTokenlessPackage()
+		pkg.Data.Write(genBytes(n, 5))
+		out := watchdog(wd, func() string {
+			err := ch.SendPackage(ctx, pkg)
+			return "send=" + classify(nil, err)
+		})
+		e.mc.mu.Lock()
+		writes := e.mc.writes
+		e.mc.mu.Unlock()
+		return out + fmt.Sprintf(" packets=%d", writes)
 	case "closed-ops", "double-close":
 		chid := arg(2)
 		e := newLifeEnv(100)
@@ -375,6 +407,20 @@ func lifeOracle(line, out string) string {
 		}
 		// Observation (not judged, the property does not speak about it): the bytes queued by the
 		// cancelled send stay in the transmit queue and are carried by the next message (body2 > 1).
+	case "cancel-mid-send":
+		n, _ := strconv.Atoi(f[2])
+		k, _ := strconv.Atoi(f[3])
+		total := (n + 503) / 504 // packets of the message at packet size 512
+		if k >= 1 && k < total {
+			if kv["send"] != "ctx" {
+				return "a send whose context is cancelled between two packets reports the context error"
+			}
+			if kv["packets"] != strconv.Itoa(k) {
+				return "no packet is written after the context was cancelled"
+			}
+		} else if kv["send"] != "ok" || kv["packets"] != strconv.Itoa(total) {
+			return "a send whose context stays live until the last packet is written succeeds"
+		}
 	case "closed-ops":
 		for _, k := range []string{"next", "until", "queue", "flush", "send", "late"} {
 			if kv[k] != "closed" {
@@ -422,6 +468,15 @@ func init() {
 			}
 			for _, n := range []int{1, 100, 504, 505, 2000} {
 				emit(Case{Line: fmt.Sprintf("life cancel-send %d", n), Kind: "cancel-send"})
+			}
+			// cancel (caller's / connection's context) while packet k of a multi-packet message is written
+			for _, n := range []int{504, 505, 1008, 1009, 2000, 5000} {
+				total := (n + 503) / 504
+				for k := 1; k <= total; k++ {
+					for _, w := range []string{"c", "n"} {
+						emit(Case{Line: fmt.Sprintf("life cancel-mid-send %d %d %s", n, k, w), Kind: "cancel-mid-send"})
+					}
+				}
 			}
 			for _, c := range []int{0, 1, 7} {
 				emit(Case{Line: fmt.Sprintf("life closed-ops %d", c), Kind: "closed"})
